@@ -733,7 +733,8 @@ def _interval_tabulate(ctx, m, fn) -> bool:
                 else:
                     errs = [shifted(x, "subtract", "end"), bound(y, "end")]
                 bad += [f"{label}: {e}" for e in errs if e]
-    except (core.Unsupported, KeyError, TypeError, AttributeError, ValueError, IndexError, RecursionError):
+    except (core.Unsupported, KeyError, TypeError, AttributeError, ValueError, IndexError, RecursionError) as e:
+        ctx.unverified("INTERVAL.tabulated", "parser._parse", f"outside the checker's interpreter: {type(e).__name__}: {str(e)[:160]}", m.loc(fn))
         return False
     ctx.ob("INTERVAL.tabulated", "parser._parse", not bad,
            f"{n} (form, tz option) cases: " + ("; ".join(bad[:3]) if bad else "interval(start, end), bounds through pendulum.instance(.., tz=option or UTC), "
@@ -746,6 +747,7 @@ def _interval_assembly(ctx) -> None:
     fn = m.func("_parse")
     tab = _interval_tabulate(ctx, m, fn)
     if tab:
+        ctx.established(("INTERVAL.assembly", "INTERVAL.tz"), "parser._parse", "INTERVAL.tabulated")
         for c_ in ("dt.add", "dt.subtract", "forms"):
             ctx.ob("INTERVAL.assembly", f"parser._parse/{c_}", True, "established by INTERVAL.tabulated", m.rel, nontrivial=False)
         ctx.ob("INTERVAL.tz", "parser._parse/instances", True, "established by INTERVAL.tabulated", m.rel, nontrivial=False)
